@@ -242,3 +242,31 @@ Print Assumptions C01_parse_float_compact_declined_correct.
 Print Assumptions C01_rs_try_fast_path_eq.
 Print Assumptions C01_rs_is_fast_path_eq.
 Print Assumptions C01_rs_scientific_exponent_eq.
+
+(** END-TO-END ON THE REGENERATED SOURCE (tools/rs2coq, proofs/SrcFinal.v): rs_parse_float is the Gallina translation of minimal_lexical::parse_float regenerated from /repo/src on every run, calling the translations of every function below it (parse.rs, number.rs, lemire.rs / bellerophon.rs, slow.rs, bigint.rs, rounding.rs, mask.rs, num.rs, extended_float.rs).  It is proved EQUAL to the hand-written model for ARBITRARY byte lists shorter than 2^63 (rs_parse_float_eq_bytes), hence returns the correctly rounded value on every valid input (rs_parse_float_correct).  Trusted: the translator, model/SrcLib.v + model/Vec.v (vector primitives, tied at cell level by C13). *)
+From ML Require Import model.SrcLib model.SrcLibFront gen.Src gen.SrcBigint gen.SrcSlow gen.SrcParse gen.SrcFrontSimple gen.SrcFrontEtc gen.SrcFrontFuzz gen.SrcFrontTest proofs.SrcEqParse proofs.SrcEqSlow proofs.SrcEqFront proofs.SrcFinal.
+
+Theorem C01_rs_parse_float_eq_bytes :
+  forall (c : config) (f : format) (b : build) (i fr : list Z) (e : Z),
+         f = F32 \/ f = F64 ->
+         zlen i + zlen fr < 2 ^ 63 -> rs_parse_float c TABLES BTABLES LIMITS f b i fr e = PF c f b i fr e.
+Proof. exact rs_parse_float_eq_bytes. Qed.
+
+Theorem C01_rs_parse_float_correct :
+  forall (c : config) (f : format) (b : build) (i fr : list Z) (e : Z),
+         In c ALL_CONFIGS ->
+         f = F32 \/ f = F64 ->
+         valid_inputb i fr e = true ->
+         zlen i + zlen fr <= 2 ^ 28 ->
+         rs_parse_float c TABLES BTABLES LIMITS f b i fr e = Ok (RN f (dec_value i fr e)).
+Proof. exact rs_parse_float_correct. Qed.
+
+Theorem C01_rs_moderate_path_eq_std :
+  forall (c : config) (f : format) (b : build) (n : number),
+         f = F32 \/ f = F64 ->
+         u64_ok (nmant n) -> rs_moderate_path c TABLES BTABLES f b n = moderate_path c TABLES BTABLES f b n.
+Proof. exact rs_moderate_path_eq_std. Qed.
+
+Print Assumptions C01_rs_parse_float_eq_bytes.
+Print Assumptions C01_rs_parse_float_correct.
+Print Assumptions C01_rs_moderate_path_eq_std.
